@@ -506,7 +506,7 @@ fn random_case(rng: &mut Rng, big_ok: bool) -> Case {
 }
 
 pub fn run(ctx: &Ctx) -> Outcome {
-    let n_random = ctx.size(200_000, 10_000_000);
+    let n_random = ctx.size(200_000, 40_000_000);
     let rand_shards = 32usize;
     // deterministic cases
     let mut fixed: Vec<Case> = vec![];
